@@ -86,15 +86,12 @@ Proof. unfold binary_stmt, ex_rem, nonzero_divisor. fromx rem_int_ok. Qed.
 Lemma rem_directed : binary_stmt honours rem_int ex_rem nonzero_divisor.
 Proof. unfold binary_stmt, ex_rem, nonzero_divisor. fromx rem_int_ok. Qed.
 
-Lemma div_correct_partial : binary_stmt correct div_int ex_div divisor_positive_or_m1.
-Proof. unfold binary_stmt, ex_div, divisor_positive_or_m1. intros c d x y old [W C] Fx Fy [Y0 Ys].
-  apply proj_correct. apply div_int_ok_partial; auto. Qed.
-Lemma div_directed_partial : binary_stmt honours div_int ex_div divisor_positive_or_m1.
-Proof. unfold binary_stmt, ex_div, divisor_positive_or_m1. intros c d x y old [W C] Fx Fy [Y0 Ys].
-  apply proj_honours. apply div_int_ok_partial; auto. Qed.
-(* the full statements, which the code does not satisfy *)
-Definition div_correct_full : Prop := binary_stmt correct div_int ex_div nonzero_divisor.
-Definition div_directed_full : Prop := binary_stmt honours div_int ex_div nonzero_divisor.
+Lemma div_correct : binary_stmt correct div_int ex_div nonzero_divisor.
+Proof. unfold binary_stmt, ex_div, nonzero_divisor. intros c d x y old [W C] Fx Fy Y0.
+  apply proj_correct. apply div_int_ok; auto. Qed.
+Lemma div_directed : binary_stmt honours div_int ex_div nonzero_divisor.
+Proof. unfold binary_stmt, ex_div, nonzero_divisor. intros c d x y old [W C] Fx Fy Y0.
+  apply proj_honours. apply div_int_ok; auto. Qed.
 
 Lemma add_mul_correct : ternary_stmt correct add_mul_int ex_add_mul no_side3.
 Proof. unfold ternary_stmt, ex_add_mul. intros c d x y z [W C] Fx Fy Fz _. apply proj_correct, okn_ok.
@@ -102,13 +99,12 @@ Proof. unfold ternary_stmt, ex_add_mul. intros c d x y z [W C] Fx Fy Fz _. apply
 Lemma add_mul_directed : ternary_stmt honours add_mul_int ex_add_mul no_side3.
 Proof. unfold ternary_stmt, ex_add_mul. intros c d x y z [W C] Fx Fy Fz _. apply proj_honours, okn_ok.
   apply add_mul_int_ok; auto. Qed.
-Lemma sub_mul_correct_partial : ternary_stmt correct sub_mul_int ex_sub_mul not_sub_mul_boundary.
-Proof. unfold ternary_stmt, ex_sub_mul, not_sub_mul_boundary. intros c d x y z [W C] Fx Fy Fz NB. apply proj_correct, okn_ok.
-  apply sub_mul_int_ok_partial; auto. Qed.
-Lemma sub_mul_directed_partial : ternary_stmt honours sub_mul_int ex_sub_mul not_sub_mul_boundary.
-Proof. unfold ternary_stmt, ex_sub_mul, not_sub_mul_boundary. intros c d x y z [W C] Fx Fy Fz NB. apply proj_honours, okn_ok.
-  apply sub_mul_int_ok_partial; auto. Qed.
-Definition sub_mul_correct_full : Prop := ternary_stmt correct sub_mul_int ex_sub_mul no_side3.
+Lemma sub_mul_correct : ternary_stmt correct sub_mul_int ex_sub_mul no_side3.
+Proof. unfold ternary_stmt, ex_sub_mul. intros c d x y z [W C] Fx Fy Fz _. apply proj_correct, okn_ok.
+  apply sub_mul_int_ok; auto. Qed.
+Lemma sub_mul_directed : ternary_stmt honours sub_mul_int ex_sub_mul no_side3.
+Proof. unfold ternary_stmt, ex_sub_mul. intros c d x y z [W C] Fx Fy Fz _. apply proj_honours, okn_ok.
+  apply sub_mul_int_ok; auto. Qed.
 
 (* conversions between native integer types (the four assign_<s>_int_<s>_int) *)
 Definition assign_stmt (P : policy -> ity -> Z -> Z * Z -> exact -> Prop) :=
@@ -152,9 +148,6 @@ Proof. unfold bounded_total_stmt, pre. intros c d e [W C]. apply bounded_total; 
 Example pre_sat8 : pre c8. Proof. split; [exact c8_wf|reflexivity]. Qed.
 Example pre_sat64 : pre c64. Proof. split; [exact c64_wf|reflexivity]. Qed.
 Example finc_sat : finc c8 (-128) /\ finc c8 127 /\ finc c64 (2 ^ 63 - 1). Proof. unfold finc, fin; cbn; lia. Qed.
-Example divisor_sat : divisor_positive_or_m1 c8 7 2 /\ divisor_positive_or_m1 c8 (-128) (-1).
-Proof. unfold divisor_positive_or_m1; cbn; split; split; auto; lia. Qed.
-Example boundary_sat : not_sub_mul_boundary c8 3 4 5. Proof. unfold not_sub_mul_boundary. cbn. lia. Qed.
 Example program_sat : eval_checked c8 ROUND_IGNORE (Add (Const 100) (Mul (Const 3) (Const 9))) = Value 127
                    /\ eval_checked c8 ROUND_IGNORE (Add (Const 100) (Mul (Const 4) (Const 7))) = Overflow.
 Proof. split; vm_compute; reflexivity. Qed.
